@@ -841,7 +841,9 @@ impl<'a> Searcher<'a> {
                 let git_repository = match git_repository {
                     Some(repo) => Some(repo),
                     None if apply_gitignore => {
-                        repo = Repository::open(&path).ok();
+                        // a queued directory may lie anywhere inside a repository below the search root:
+                        // look for the work tree it belongs to, not only for one that starts here
+                        repo = Repository::discover(&path).ok();
                         repo.as_ref()
                     },
                     _ => None,
